@@ -478,7 +478,8 @@ class Gmx2World:
         self.short = TokenInfo(*short)
         self.index = [start + timedelta(minutes=i) for i in range(n)]
         lp = rng.uniform(500, 4000)
-        sp = 1.0
+        # the short token is a stable coin that is not exactly at its peg, or (one world in five) another asset altogether
+        sp = rng.choice([1.0, 0.9993, 1.0008, 0.9871, rng.uniform(0.2, 30.0)])
         pool_usd = math.exp(rng.uniform(math.log(1e5), math.log(5e8)))
         ratio = balance if balance is not None else rng.choice([1.0, 1.0, 0.5, 2.0, 0.1, 10.0])
         long_usd = pool_usd * ratio / (1 + ratio)
